@@ -397,8 +397,9 @@ class Gen:
         elif fn == "roc":
             p["thr"] = self.tighten_opt_upper(p["thr"])
         elif fn == "speed":
-            p["st"] = [max(0, p["st"][0] - r.choice([0, 1, 5, 100])), 1]
-            p["ft"] = [max(0, p["ft"][0] - r.choice([0, 1, 5, 100])), 1]
+            # never below 0 -- unless the threshold already is
+            p["st"] = [max(min(p["st"][0], 0), p["st"][0] - r.choice([0, 1, 5, 100])), 1]
+            p["ft"] = [max(min(p["ft"][0], 0), p["ft"][0] - r.choice([0, 1, 5, 100])), 1]
         elif fn == "flat":
             dd = (c["t"][1] - c["t"][0]) if len(c["t"]) >= 2 else 1
             p["st"] = max(0, p["st"] - r.choice([0, 1, dd, 2 * dd]))
